@@ -59,9 +59,18 @@ def gen_analyze(rng: Rng, world: Dict[str, Any], inc: bool = True) -> Dict[str, 
 
 def gen_edits(rng: Rng) -> List[Dict[str, Any]]:
     edits = []
+    if rng.chance(0.25):
+        # a purely weight-conserving what-if: node count, edge count and total weight stay the same
+        for _ in range(rng.randint(1, 3)):
+            kind = rng.choice(["swap_on_off", "swap_on_off", "swap", "move"])
+            edits.append({kind: [rng.below(10000), rng.below(10000)]})
+        return edits
     for _ in range(rng.randint(1, 6)):
-        kind = rng.weighted([("speedup", 4), ("slowdown", 3), ("zero", 1), ("set", 1), ("scale", 4)])
+        kind = rng.weighted([("speedup", 4), ("slowdown", 3), ("zero", 1), ("set", 1), ("scale", 4), ("swap", 2), ("move", 2)])
         pick = rng.below(10000)
+        if kind in ("swap", "move"):
+            edits.append({kind: [pick, rng.below(10000)]})
+            continue
         if kind == "scale":
             # "what if this were 2x faster / 1.5x slower": fractional weights, exact in binary
             edits.append({"pick": pick, "mul": rng.choice([0.5, 0.5, 0.25, 0.75, 1.5, 2.5])})
